@@ -209,6 +209,7 @@ func sqrtLayers(tier string) []Layer {
 				xs = append(xs, mkSpecial(f, n, 5, ToPositiveInf))
 			}
 		}
+		xs = append(xs, staleSpecials(5, ToNearestAway)...)
 		xs = append(xs, mkInt64(-4, 0, 5, 0), mkInt64(-1, -30, 5, 0))
 		for _, e := range []int64{MinExp, MinExp + 1, MinExp + 2, MaxExp, MaxExp - 1} {
 			for _, cf := range []int64{1, 4, 9, 16, 2, 99, 25} {
